@@ -407,6 +407,25 @@ def content_fault(data: bytes, spec) -> bytes:
     raise ValueError(kind)
 
 
+BAD_RECORDS = [
+    # records of non-coordinate types that are not column-aligned / not numeric where the
+    # parser expects numbers: pdb2pqr reports them as non-standard and carries on
+    "MODEL 1", "HEADER", "CRYST1 oops", "SEQRES   x A   14  ALA", "HELIX bad record",
+    "SSBOND   1 CYS A    x    CYS A    y", "CONECT    a    b", "SITE     1 AC1  x",
+    "REMARK 465 free text is fine", "SCALE1      not numbers", "MASTER      x y z",
+]
+
+
+def add_bad_records(text, which=None):
+    lines = text.splitlines()
+    recs = BAD_RECORDS if which is None else [BAD_RECORDS[i % len(BAD_RECORDS)] for i in which]
+    first_atom = next((i for i, l in enumerate(lines) if _is_atom(l)), 0)
+    lines[first_atom:first_atom] = recs[: len(recs) // 2 + 1]
+    end = next((i for i in range(len(lines) - 1, -1, -1) if _is_atom(lines[i])), len(lines) - 1)
+    lines[end + 1:end + 1] = recs[len(recs) // 2 + 1:]
+    return "\n".join(lines) + "\n"
+
+
 def structure_text(cfg):
     """The structure bytes for a cfg (before any content fault)."""
     text = load(cfg["item"])
@@ -420,6 +439,8 @@ def structure_text(cfg):
         text = rename(text, cfg["rename"])
     if cfg.get("chains"):
         text = split_chains(text, cfg["chains"])
+    if cfg.get("bad_records") is not None:
+        text = add_bad_records(text, None if cfg["bad_records"] is True else cfg["bad_records"])
     if cfg.get("lig_het"):
         text = add_ligand(text, cfg["lig_het"], cfg.get("lig_resname", "LIG"),
                           cfg.get("lig_drop_h", False))
